@@ -8,7 +8,7 @@
 
 /* ---- alphabet (harness may override before bfs_run) ---- */
 static const char *e2_sec[8] = { NULL, "", "A", "[A]", "AB" }; static int e2_nsec = 5;   /* "A" is a proper prefix of "AB" on purpose */
-static const char *e2_key[4] = { "x", "xy", "z" }; static int e2_nkey = 3;            /* "x" is a proper prefix of "xy" on purpose */
+static const char *e2_key[4] = { "x", "xy", "X" }; static int e2_nkey = 3;            /* "x" is a proper prefix of "xy" and differs from "X" only in case, on purpose */
 static const char *e2_val[8] = { "1", "2" }; static int e2_nval = 2;
 static int e2_nstarts_used = 8;
 
